@@ -49,6 +49,16 @@ def run(chk):
                 chk.violate({"kind": "property", "case": lib.show_case(c), "impl": i[:2000], "expected": want[:2000],
                              "explanation": "a field of the Policy grammar did not parse to the structure it denotes"})
         valid_texts += [t for t, _ in items]
+    # a receiver that is used again: UnmarshalControl(b) into a value that already holds the parse of a gives the parse of b
+    pool = rng.sample(valid_texts, min(len(valid_texts), chk.n(1500, 30000)))
+    rc = [("dreuse", [rng.choice(pool), b]) for b in pool]
+    ri = chk.run_impl(rc)
+    rf = chk.run_impl([("dparse", [c[1][1]]) for c in rc])
+    chk.record("reused-receiver", rc, ri)
+    for c, a, b in zip(rc, ri, rf):
+        if a != b:
+            chk.violate({"kind": "property", "case": lib.show_case(c), "impl": a[:1500], "fresh_parse": b[:1500],
+                         "explanation": "parsing a field into a value that was used before does not give the structure the field denotes"})
     # malformed classes: must be rejected, with no result
     cases, kinds = [], []
     for _ in range(chk.n(600, 12000)):
